@@ -5754,7 +5754,8 @@ class PyCdlib:
         the isohdpfx.bin files).
 
         Parameters:
-         part_entry - The partition entry to use; one by default.
+         part_entry - The partition entry to use (1 to 4, but not 2 with efi
+                      and not 3 with mac); one by default.
          mbr_id - The mbr_id to use.  If set to None (the default), a random one
                   will be generated.
          part_offset - The partition offset to use; zero by default.
@@ -5785,6 +5786,14 @@ class PyCdlib:
             efi = False
             if mac:
                 efi = True
+
+        # The bootable partition must land in one of the four MBR slots, and
+        # not in the one that is taken by the EFI (2) or the Mac (3) partition;
+        # otherwise the MBR ends up without any bootable partition.
+        if part_entry < 1 or part_entry > 4:
+            raise pycdlibexception.PyCdlibInvalidInput('The partition entry must be between 1 and 4, inclusive')
+        if (efi and part_entry == 2) or (mac and part_entry == 3):
+            raise pycdlibexception.PyCdlibInvalidInput('Partition entry 2 is used by the EFI partition and 3 by the Mac partition')
 
         if part_type is None:
             part_type = 0x17
